@@ -9,5 +9,6 @@ CONSTANTS
   SyncStates = {"running"}
   StrictPolicy = TRUE
   WithEvents = FALSE
+  FlushOnError = TRUE
   ConsistentEnv = FALSE
 INVARIANTS TypeOK Inv_AdjDescribesCreated
